@@ -65,7 +65,7 @@ func init() {
 		}
 		r.Assumptions = []string{
 			"proofs are verified with github.com/cosmos/ics23/go v0.11.0 (ics23.IavlSpec) against root hashes computed by the independent reference tree, not by iavl",
-			"values are non-empty: ics23's LeafOp.Apply rejects an empty value by specification ('leaf op needs value'), so no IAVL proof of an empty-valued key can verify under ics23.IavlSpec; the property's quantifier ranges over keys, not over empty values (empty values are covered by C01/C08)",
+			"keys are non-empty for the same reason as values (ics23's LeafOp.Apply: 'leaf op needs key'); values are non-empty: ics23's LeafOp.Apply rejects an empty value by specification ('leaf op needs value'), so no IAVL proof of an empty-valued key can verify under ics23.IavlSpec; the property's quantifier ranges over keys, not over empty values (empty values are covered by C01/C08)",
 			"a non-membership proof is allowed to verify for another absent key of the same gap (same neighbours): the claim is true there",
 		}
 		return r
